@@ -344,7 +344,105 @@ pub fn run_multi_addr(c: &MultiAddrCase) -> CaseResult {
     Ok(1 + c.via_alias as u64)
 }
 
+// ---------- large meshes ----------
+
+#[derive(Serialize, Deserialize, Clone, Debug)]
+pub struct LargeCase {
+    pub n: usize,
+    pub mode: String,
+    pub plain: bool,
+}
+
+/// A mesh of `n` nodes (one broadcast then serves n-1 peers from one buffer): every node floods one frame and sends one frame
+/// to a learned station; conservation as everywhere; the announcement broadcasts of two intervals go through.
+pub fn run_large(c: &LargeCase) -> CaseResult {
+    let mode = if c.mode == "switch" { Mode::Switch } else { Mode::Hub };
+    let cfgs: Vec<_> = (0..c.n)
+        .map(|_| {
+            let mut cfg = base_config(mode, Type::Tap, 0, &[0]);
+            if c.plain {
+                cfg.crypto.algorithms = vec!["plain".to_string()];
+            }
+            cfg
+        })
+        .collect();
+    let sig = |f: Fail| f.with("n", c.n as u64).with("mode", c.mode.clone());
+    let mut net = Net::<Frame>::mesh(&cfgs, 5);
+    for _ in 0..100 {
+        if net.fully_meshed() {
+            break;
+        }
+        net.tick();
+        net.deliver_all(4096);
+    }
+    if !net.fully_meshed() {
+        return Err(sig(Fail::new("no_full_mesh", format!("{} nodes did not mesh within 105 s", c.n))));
+    }
+    if let Some((i, e)) = net.housekeep_errors.first() {
+        return Err(sig(Fail::new("housekeep_error", format!("node {}: {}", i, e))));
+    }
+    for i in 0..c.n {
+        net.pop_frames(i);
+    }
+    for from in 0..c.n {
+        net.queue.clear();
+        let src = [2, 0, 0, 0, 1, from as u8];
+        let f = eth_frame([0xff; 6], src, None, format!("large mesh flood from {:02}", from).as_bytes());
+        util::catch(|| net.put_frame(from, f.clone())).map_err(|p| sig(Fail::from_panic(&p)))?.map_err(|e| sig(Fail::new("send_error", format!("flood from node {}: {}", from, e))))?;
+        let sent = net.queue.len();
+        net.deliver_all(256);
+        if sent != c.n - 1 {
+            return Err(sig(Fail::new("wrong_wire", format!("flooded frame from node {} caused {} datagrams, expected {}", from, sent, c.n - 1))));
+        }
+        for r in 0..c.n {
+            let got = net.pop_frames(r);
+            let want = if r == from { 0 } else { 1 };
+            if got.len() != want || got.iter().any(|g| g != &f) {
+                return Err(sig(Fail::new("wrong_delivery", format!("flooded frame from node {}: node {} wrote {} frame(s), byte-identical: {}", from, r, got.len(), got.iter().all(|g| g == &f)))));
+            }
+        }
+        // the answer to that station: unicast in switch mode, flooded in hub mode
+        let to = (from + 1) % c.n;
+        net.queue.clear();
+        let g = eth_frame(src, [2, 0, 0, 0, 2, to as u8], None, b"large mesh answer");
+        net.put_frame(to, g.clone()).map_err(|e| sig(Fail::new("send_error", format!("{}", e))))?;
+        let sent = net.queue.len();
+        let want_sent = if c.mode == "switch" { 1 } else { c.n - 1 };
+        net.deliver_all(256);
+        if sent != want_sent {
+            return Err(sig(Fail::new("wrong_wire", format!("answer from node {} caused {} datagrams, expected {}", to, sent, want_sent))));
+        }
+        for r in 0..c.n {
+            let got = net.pop_frames(r);
+            let want = if r == to { 0 } else if c.mode == "switch" { (r == from) as usize } else { 1 };
+            if got.len() != want {
+                return Err(sig(Fail::new("wrong_delivery", format!("answer from node {} to the station behind node {}: node {} wrote {} frame(s), expected {}", to, from, r, got.len(), want))));
+            }
+        }
+    }
+    // two announcement intervals: every node broadcasts its node information to n-1 peers
+    for _ in 0..185 {
+        util::catch(|| net.tick()).map_err(|p| sig(Fail::from_panic(&p)))?;
+        net.deliver_all(8192);
+    }
+    if let Some((i, e)) = net.housekeep_errors.first() {
+        return Err(sig(Fail::new("housekeep_error", format!("node {}: {}", i, e))));
+    }
+    if !net.fully_meshed() {
+        return Err(sig(Fail::new("mesh_lost", "the mesh fell apart during two announcement intervals")));
+    }
+    Ok(c.n as u64)
+}
+
 pub fn run(ctx: &Ctx) {
+    let mut large = vec![];
+    for n in ctx.tier.pick(vec![13usize], vec![12, 13, 14, 22]) {
+        for mode in ["switch", "hub"] {
+            large.push(LargeCase { n, mode: mode.to_string(), plain: false });
+        }
+    }
+    large.push(LargeCase { n: 13, mode: "switch".into(), plain: true });
+    sweep_list(ctx, "large_mesh", &large, SweepOpts { chunk: 1, ..Default::default() }, run_large);
     let mut multi = vec![];
     for via_alias in 0..4u8 {
         for mode in ["switch", "hub"] {
@@ -411,6 +509,7 @@ pub fn replay(family: &str, case: &Value) -> Option<CaseResult> {
         "outsiders" => replay_with::<OutsiderCase>(case, run_outsider),
         "mode_matrix" => replay_with::<super::modes::ModeCase>(case, super::modes::run_case),
         "multi_address_mesh" => replay_with::<MultiAddrCase>(case, run_multi_addr),
+        "large_mesh" => replay_with::<LargeCase>(case, run_large),
         f if f.starts_with("isolation_router") => {
             let hist: Vec<Ev> = serde_json::from_value(case["history"].clone()).ok()?;
             let n = if f.contains('4') { 4 } else { 3 };
